@@ -1,5 +1,5 @@
 """C17 (modes), C08 (type equality), C10 (well-formedness), C16 (mode inference)."""
-import json, time, os, itertools, random
+import collections, json, time, os, itertools, random
 import vlib
 
 MODES = ["rep", "mul", "aff", "lin"]
@@ -145,6 +145,48 @@ def make_envs(sh, n, rng, pool="full", names=("A", "B", "C"), exhaustive=False):
     return envs
 
 
+def collision_cases(rng, n):
+    """environments + queries aimed at the memo key of EqualType (F10): a name L is compared, inside ONE call, first with its own
+    definition and then with a different type that is written with the same tokens when parentheses are dropped (re-association of
+    * / -* chains, a shift as left operand); the call compares +{p : L, q : L} with +{p : T1, q : T2} in both orders."""
+    U = {"k": "unit", "mode": "rep"}
+
+    def trees(k):
+        if k == 0:
+            return [U, {"k": "name", "name": "B", "mode": "rep"}]
+        out = []
+        for i in range(k):
+            for l in trees(i):
+                for r in trees(k - 1 - i):
+                    for op in ("send", "recv"):
+                        out.append({"k": op, "l": l, "r": r, "mode": "rep"})
+        return out
+
+    def flat(t):
+        if t["k"] == "unit":
+            return "1"
+        if t["k"] == "name":
+            return t["name"]
+        return flat(t["l"]) + (" * " if t["k"] == "send" else " -* ") + flat(t["r"])
+
+    groups = collections.defaultdict(list)
+    for k in (2, 3):
+        for t in trees(k):
+            groups[flat(t)].append(t)
+    pairs = [(a, b) for g in groups.values() if len(g) > 1 for a in g for b in g if a != b]
+    rng.shuffle(pairs)
+    out = []
+    for t1, t2 in pairs[:n]:
+        defs = [{"name": "A", "t": t1}, {"name": "B", "t": U}]
+        L = {"k": "name", "name": "A", "mode": "rep"}
+
+        def sel(x, y):
+            return {"k": "sel", "br": [{"label": "p", "t": x}, {"label": "q", "t": y}], "mode": "rep"}
+        qs = [(sel(L, L), sel(t1, t2)), (sel(t1, t2), sel(L, L)), (sel(L, L), sel(t2, t1)), (L, t2), (t2, L), (sel(L, L), sel(t1, t1))]
+        out.append((defs, qs))
+    return out
+
+
 def queries_for(defs, rng, limit=7):
     terms = []
     for d in defs:
@@ -183,6 +225,10 @@ def c08():
             envs += make_envs(sh, 3000, rng, "full") + make_envs(sh, 2500, rng, "full+deep")
             envs += make_envs(sh, 0, rng, "small", names=("A", "B"), exhaustive=True)
             envs += make_envs(sh, 3000, rng, "small")
+        explicit = {}
+        for defs, qs in collision_cases(rng, 60 if tr == "quick" else 100000):
+            explicit[id(defs)] = qs
+            envs.append(defs)
         # real calls
         cases = []
 
@@ -190,7 +236,7 @@ def c08():
             w = vlib.Worker(timeout=10)
             out = []
             for defs in chunk:
-                qs = queries_for(defs, random.Random(len(out)))
+                qs = explicit.get(id(defs)) or queries_for(defs, random.Random(len(out)))
                 r = w.call({"op": "eq", "defs": defs, "queries": [[a, b] for a, b in qs]})
                 if "results" in r:
                     rets = ["true" if x else "false" for x in r["results"]]
@@ -392,6 +438,40 @@ def smart_written(sh, n, rng):
     return out
 
 
+def cyclic_written(n, rng):
+    """unannotated, mutually recursive definition sets in which the component that fixes the mode sits AFTER a back edge of the traversal,
+    under every order of the definitions: mode inference walks definitions through names with a cycle guard, and a partial result computed
+    inside a cycle must not leak to another definition (order independence / completeness of C16, consistency of C10)."""
+    N = ["A", "B", "C"]
+    U = {"k": "unit", "mode": ""}
+    nm = lambda x: {"k": "name", "name": x, "mode": ""}
+    shifts = [{"k": "down", "from": "rep", "to": "lin", "t": U}, {"k": "up", "from": "lin", "to": "rep", "t": U},
+              {"k": "down", "from": "rep", "to": "aff", "t": U}, {"k": "down", "from": "mul", "to": "lin", "t": U}]
+    pool = []
+    for x in N:
+        pool += [nm(x)] * 3
+        for k in ("sel", "bra"):
+            pool.append({"k": k, "br": [{"label": "l", "t": nm(x)}], "mode": ""})
+            for sh in shifts:
+                pool.append({"k": k, "br": [{"label": "l", "t": nm(x)}, {"label": "r", "t": sh}], "mode": ""})
+                pool.append({"k": k, "br": [{"label": "l", "t": sh}, {"label": "r", "t": nm(x)}], "mode": ""})
+            for y in N:
+                pool.append({"k": k, "br": [{"label": "l", "t": nm(x)}, {"label": "r", "t": nm(y)}], "mode": ""})
+        for k in ("send", "recv"):
+            pool.append({"k": k, "l": nm(x), "r": U, "mode": ""})
+            for y in N:
+                pool.append({"k": k, "l": nm(x), "r": nm(y), "mode": ""})
+            for sh in shifts[:2]:
+                pool.append({"k": k, "l": nm(x), "r": sh, "mode": ""})
+    pool += [U] * 4 + shifts
+    out = []
+    while len(out) < n:
+        defs = [{"name": x, "ann": rng.choice(["", "", "", "", "lin", "rep"]), "t": rng.choice(pool)} for x in N]
+        for perm in itertools.permutations(defs):
+            out.append(list(perm))
+    return out
+
+
 DEFS_CFG = """SPECIFICATION Spec
 INVARIANTS %s
 CHECK_DEADLOCK FALSE
@@ -417,6 +497,7 @@ def types_campaign():
     W += [[{"name": "A", "ann": "", "t": strip_modes(x)}] for x in s2]
     W += [[{"name": "A", "ann": "", "t": strip_modes(x)}, {"name": "B", "ann": "", "t": {"k": "send", "l": {"k": "name", "name": "A", "mode": ""}, "r": {"k": "unit", "mode": ""}, "mode": ""}}]
           for x in rng.sample(sh["shift2"], 60)]
+    W += cyclic_written(1500 if tr == "quick" else 40000, rng)
     cases = []
 
     def run_chunk(chunk):
